@@ -162,6 +162,9 @@ pub struct Ctx {
 /// Set once a VIOLATION line was printed (the watchdog then reports the verdict instead of `inconclusive`).
 pub static VIOLATION_SEEN: std::sync::atomic::AtomicBool = std::sync::atomic::AtomicBool::new(false);
 
+/// Set by the fuzz targets: oracles then run their panic-provoking probes less often.
+pub static LIGHT_PROBES: std::sync::atomic::AtomicBool = std::sync::atomic::AtomicBool::new(false);
+
 static SOFT_KNOWN: std::sync::RwLock<Vec<(KnownFinding, String)>> = std::sync::RwLock::new(Vec::new());
 static SOFT_HITS: std::sync::Mutex<BTreeMap<String, u64>> = std::sync::Mutex::new(BTreeMap::new());
 
